@@ -650,6 +650,15 @@ Fixpoint list_eqb {A} (eq : A -> A -> bool) (a b : list A) : bool :=
   | _, _ => false
   end.
 Definition kv_eqb (a b : str * pval) : bool := str_eqb (fst a) (fst b) && pval_eqb (snd a) (snd b).
+(* against the specification a time may differ from the reference float by at most half a millisecond
+   (the reference itself is within 2^-11 s of the exact time): another formula with millisecond precision is no violation *)
+Definition half_ms : f64 := of_bits 4562254508917369340.   (* 0.0005 *)
+Definition pval_close (a b : pval) : bool :=
+  match a, b with
+  | VFloat x, VFloat y => fbits_eq x y || (is_fin x && is_fin y && fle (fabs (fsub x y)) half_ms)
+  | _, _ => pval_eqb a b
+  end.
+Definition kv_close (a b : str * pval) : bool := str_eqb (fst a) (fst b) && pval_close (snd a) (snd b).
 (* group a flat list by name (order of values of a name kept), sort names: order across names is immaterial *)
 Definition canon_flat (l : list (str * pval)) : list (str * pval) :=
   encode (fold_left (fun q kv => v_add (fst kv) (snd kv) q) l []).
@@ -660,7 +669,11 @@ Definition request_eqb (a b : request) : bool :=
 Definition request_canon (a : request) : request :=
   {| rq_post := rq_post a; rq_path := rq_path a; rq_query := canon_flat (rq_query a);
      rq_form := canon_flat (rq_form a); rq_form_ctype := rq_form_ctype a |}.
-Definition request_equiv (a b : request) : bool := request_eqb (request_canon a) (request_canon b).
+Definition request_close (a b : request) : bool :=
+  Bool.eqb (rq_post a) (rq_post b) && list_eqb str_eqb (rq_path a) (rq_path b) &&
+  list_eqb kv_close (rq_query a) (rq_query b) && list_eqb kv_close (rq_form a) (rq_form b) &&
+  Bool.eqb (rq_form_ctype a) (rq_form_ctype b).
+Definition request_equiv (a b : request) : bool := request_close (request_canon a) (request_canon b).
 
 (* --- vocabulary of the theorems *)
 Definition start_net (script : list behaviour) (pre : bool) : net := {| n_script := script; n_done := pre; n_seen := [] |}.
